@@ -1440,17 +1440,19 @@ _adapter_hook(LB* self,
         return NULL;
 
     if (factory != Py_None) {
+        PyObject* unwrapped = NULL;
         if (PyObject_TypeCheck(object, &PySuper_Type)) {
-            PyObject* self = PyObject_GetAttr(object, str__self__);
-            if (self == NULL) {
+            unwrapped = PyObject_GetAttr(object, str__self__);
+            if (unwrapped == NULL) {
                 Py_DECREF(factory);
                 return NULL;
             }
-            // Borrow the reference to self
-            Py_DECREF(self);
-            object = self;
+            /* keep our reference for the call: ``__self__`` of a subclass
+               of super may be computed */
+            object = unwrapped;
         }
         result = PyObject_CallFunctionObjArgs(factory, object, NULL);
+        Py_XDECREF(unwrapped);
         Py_DECREF(factory);
         if (result == NULL || result != Py_None)
             return result;
